@@ -129,7 +129,7 @@ let () =
 let mx_code_name c =
   match int_of_z c with
   | 1 -> "failure-expected-but-command-produced" | 2 -> "unexpected-failure" | 3 -> "array-vs-string"
-  | 4 -> "argv-count" | 5 -> "argv-content" | 6 -> "shell-string" | 9 -> "dollar-empty-var"
+  | 4 -> "argv-count" | 5 -> "argv-content" | 6 -> "shell-string"
   | 11 -> "plugin-started-after-failed-resolution" | 12 -> "shell-string-outside-model" | 13 -> "argv-through-sh" | 14 -> "argv-execvp"
   | 15 -> "failure-not-unknown" | 16 -> "exit-status" | 17 -> "exit-map" | 18 -> "output-text" | 19 -> "perfdata"
   | 20 -> "escape" | 21 -> "escape-not-one-word" | 30 -> "exit-map" | 40 -> "output-text" | 41 -> "output-perf" | 42 -> "perfdata"
